@@ -391,6 +391,23 @@ impl<F: Float> Arithmetic<F> {
     /// Complexity: \\( O(1) \\)
     ///
     pub fn ci_mean(&self, confidence: Confidence) -> CIResult<Interval<F>> {
+        #[cfg(stats_ci_verif)]
+        if let Some(_token) = crate::verif_trace::enter("M") {
+            let result = self.ci_mean(confidence);
+            if self.count >= 2 {
+                let f = |x: Option<&F>| x.and_then(|v| v.to_f64());
+                let bounds = result.as_ref().map(|iv| (f(iv.left()), f(iv.right()))).map_err(|_| ());
+                crate::verif_trace::mean(
+                    &confidence,
+                    self.count,
+                    self.sample_mean().to_f64().unwrap_or(f64::NAN),
+                    self.sample_std_dev().to_f64().unwrap_or(f64::NAN),
+                    (core::mem::size_of::<F>() * 8) as u32,
+                    &bounds,
+                );
+            }
+            return result;
+        }
         if self.count < 2 {
             return Err(CIError::TooFewSamples(self.count));
         }
